@@ -95,10 +95,10 @@ Definition ex_query : query := QNAnd (QLeaf (PLit 1 [98])) (QLeaf (PPrefix 0 [97
 
 Example C02_nonvacuous :
   Forall ok_doc ex_corpus /\ NoDup (map did ex_corpus) /\
-  search_model ex_corpus ex_query 11 13 false 2 true = Ok ([(13, 4); (12, 1)], 3) /\
-  search_model ex_corpus ex_query 10 12 true 2 true = Ok ([(11, 2); (12, 1)], 2) /\
-  search_model ex_corpus ex_query 11 13 false 2 true = Ok (search_spec ex_corpus ex_query 11 13 false 2 true) /\
-  search_model ex_corpus (QNot ex_query) 11 11 true 1 true = Ok (search_spec ex_corpus (QNot ex_query) 11 11 true 1 true) /\
+  search_model ex_corpus ex_query 11 13 false 2 true 0 = Ok ([(13, 4); (12, 1)], 3) /\
+  search_model ex_corpus ex_query 10 12 true 2 true 0 = Ok ([(11, 2); (12, 1)], 2) /\
+  search_model ex_corpus ex_query 11 13 false 2 true 0 = Ok (search_spec ex_corpus ex_query 11 13 false 2 true) /\
+  search_model ex_corpus (QNot ex_query) 11 11 true 1 true 0 = Ok (search_spec ex_corpus (QNot ex_query) 11 11 true 1 true) /\
   search_spec ex_corpus (QNot ex_query) 11 11 true 1 true = ([(11, 7)], 2).
 Proof.
   split. { repeat constructor; vm_compute; congruence. }
@@ -117,7 +117,7 @@ Qed.
 (* hypotheses are necessary: a stored ID (0,0) is cut off by the border computation when from = 0
    (design defect #14; not ingestable: DocProvider.Append replaces MID 0) *)
 Example C02_id00_excluded :
-  search_model [Doc 0 0 [(0, [97])]] (QLeaf (PLit 0 [97])) 0 5 false 10 true = Ok ([], 0) /\
+  search_model [Doc 0 0 [(0, [97])]] (QLeaf (PLit 0 [97])) 0 5 false 10 true 0 = Ok ([], 0) /\
   search_spec [Doc 0 0 [(0, [97])]] (QLeaf (PLit 0 [97])) 0 5 false 10 true = ([(0, 0)], 1).
 Proof. split; vm_compute; reflexivity. Qed.
 
